@@ -3,6 +3,7 @@
 package main
 
 import (
+	"context"
 	"bytes"
 	"encoding/json"
 	"fmt"
@@ -36,6 +37,9 @@ type sessionCase struct {
 	GapMs       int  `json:"gap_ms"`         // pause between successive commands
 	Private     bool `json:"private_limiter"`
 	ReadBuf     int  `json:"read_buf"`
+	// ask the aggregator for an interim result every so many microseconds while the session runs (what its interval
+	// timer does, at the harness' pace: interim serialisation happens however short the session is)
+	SerializeEveryUs int `json:"serialize_every_us"`
 }
 
 var sharedCat = map[int]chan struct{}{}
@@ -108,6 +112,20 @@ func init() {
 		installHooks()
 		h := handlers.NewServerHandler(u, catLim, sharedTail)
 		hkey := fmt.Sprintf("%p", h)
+		if c.SerializeEveryUs > 0 {
+			go func() {
+				for {
+					select {
+					case <-h.Done():
+						return
+					case <-time.After(time.Duration(c.SerializeEveryUs) * time.Microsecond):
+					}
+					ctx, cancel := context.WithTimeout(context.Background(), 200*time.Millisecond)
+					h.VerifSerialize(ctx)
+					cancel()
+				}
+			}()
+		}
 		zeroBefore := []int{}
 		var mu sync.Mutex
 		var stream bytes.Buffer
